@@ -210,11 +210,17 @@ _ENC = {"file": "C15SrcEnc", "needs": ["runtime_Sov", "runtime_EncodeVarint"], "
 _SKIP = {"file": "C15SrcSkip", "needs": ["runtime_Skip"], "strict": False, "required": ["C15_src_Skip_is_model"]}
 _LIMIT = {"file": "C06Src", "needs": ["runtime_nestedRecursionLimit"], "strict": True,
           "required": ["C06_src_nestedRecursionLimit_is_model", "C06_src_budget_decreases"]}
+_MOPTS = {"file": "C05Src", "needs": ["runtime_SizeInputToOptions", "runtime_MarshalInputToOptions"], "strict": True,
+          "required": ["C05_src_marshal_flags_forwarded", "C05_src_size_flags_forwarded", "C05_src_size_and_marshal_options_agree"]}
+_UOPTS = {"file": "C14Src", "needs": ["runtime_UnmarshalInputToOptions", "runtime_nestedRecursionLimit"], "strict": True,
+          "required": ["C14_src_unmarshal_options", "C14_src_discard_forwarded", "C14_src_limit_decreases"]}
 SRC = {
-    "C02": [_KEYSIZE],
-    "C04": [_KEYSIZE, _SOV, _SOZ],
-    "C06": [_LIMIT, _SKIP],
-    "C14": [_SKIP],
+    "C02": [_KEYSIZE, _MOPTS],
+    "C03": [_UOPTS],
+    "C05": [_MOPTS],
+    "C04": [_KEYSIZE, _SOV, _SOZ, _MOPTS],
+    "C06": [_LIMIT, _SKIP, _UOPTS],
+    "C14": [_SKIP, _UOPTS],
     "C15": [_SOV, _SOZ, _ENC, _SKIP],
     "C17": [{"file": "C17Src", "strict": True,
              "needs": ["timepb_IsZero", "timepb_Compare", "timepb_DurationIsNegative", "timepb_overflowPanic", "timepb_Add"],
